@@ -129,6 +129,9 @@ pub struct FnSig {
     /// the function takes `&mut self` (parameter 0) and returns the new value first
     pub mut_self: bool,
     pub ret_unit: bool,
+    pub plain_res: bool,
+    pub uses_t: bool,
+    pub uses_l: bool,
 }
 
 pub struct Tr<'a> {
@@ -168,6 +171,13 @@ pub struct Tr<'a> {
     pub self_out: Option<u32>,
     /// the declared result carries no information (`()`, `fmt::Result`, `Result<(), E>`)
     pub ret_unit: bool,
+    /// the declared result is a plain `T`, but the body may panic (`.unwrap()`, indexing): the Lean definition returns `Res T`
+    pub plain_res: bool,
+    /// the definition takes the likely-subtags tables `T : Tables` / the layout tables `L : Layout` as leading parameters
+    pub uses_t: bool,
+    pub uses_l: bool,
+    /// cargo features that are on for this target
+    pub features: Vec<String>,
 }
 
 #[derive(Clone, Debug)]
@@ -344,6 +354,7 @@ impl<'a> Tr<'a> {
                 match name.as_str() {
                     "bool" => Ok(Ty::Bool),
                     "usize" => Ok(Ty::Usize),
+                    "u32" | "u64" => Ok(Ty::UInt),
                     "u8" => Ok(Ty::U8),
                     "char" => Ok(Ty::Char),
                     "str" | "String" => Ok(Ty::Str),
@@ -565,7 +576,10 @@ impl<'a> Tr<'a> {
         }
         Ok(match t {
             Ty::Bool => "Bool".into(),
-            Ty::Usize | Ty::U8 | Ty::Int | Ty::Char => "Nat".into(),
+            Ty::Usize | Ty::U8 | Ty::Int | Ty::Char | Ty::UInt => "Nat".into(),
+            Ty::Table1 => "Array Row1".into(),
+            Ty::Table2 => "Array Row2".into(),
+            Ty::NatList => "List Nat".into(),
             Ty::Slice | Ty::Str | Ty::Tiny(_) => "Bytes".into(),
             Ty::Opt(x) => format!("Option {}", atom(self.lean_ty(x)?)),
             Ty::ResPE(x) => format!("Res {}", atom(self.lean_ty(x)?)),
@@ -608,7 +622,14 @@ impl<'a> Tr<'a> {
     /// May `==` be used on this type, and does it mean equality of the Lean representation?
     pub fn eq_able(&mut self, t: &Ty) -> R<bool> {
         Ok(match t {
-            Ty::Bool | Ty::Usize | Ty::U8 | Ty::Int | Ty::Char | Ty::Slice | Ty::Str | Ty::Tiny(_) => true,
+            Ty::Bool | Ty::Usize | Ty::U8 | Ty::Int | Ty::Char | Ty::Slice | Ty::Str | Ty::Tiny(_) | Ty::UInt => true,
+            Ty::Tuple(xs) => {
+                let mut ok = true;
+                for x in xs.clone() {
+                    ok = ok && self.eq_able(&x)?;
+                }
+                ok
+            }
             Ty::Opt(x) | Ty::List(x) => self.eq_able(x)?,
             Ty::Named(n) => {
                 if let Some(nt) = self.reg.newtype(n)? {
@@ -628,9 +649,20 @@ impl<'a> Tr<'a> {
 
     /// Are the two types comparable with `==` (both sides the same representation)?
     pub fn eq_compatible(&mut self, a: &Ty, b: &Ty) -> R<bool> {
-        let is_int = |t: &Ty| matches!(t, Ty::Usize | Ty::U8 | Ty::Int);
+        let is_int = |t: &Ty| matches!(t, Ty::Usize | Ty::U8 | Ty::Int | Ty::UInt);
         if is_int(a) && is_int(b) {
             return Ok(!(matches!((a, b), (Ty::Usize, Ty::U8) | (Ty::U8, Ty::Usize))));
+        }
+        if let (Ty::Tuple(x), Ty::Tuple(y)) = (a, b) {
+            if x.len() != y.len() {
+                return Ok(false);
+            }
+            for (p, q) in x.clone().iter().zip(y.clone().iter()) {
+                if !self.eq_compatible(p, q)? {
+                    return Ok(false);
+                }
+            }
+            return Ok(true);
         }
         let is_text = |t: &Ty| matches!(t, Ty::Str | Ty::Tiny(_));
         if is_text(a) && is_text(b) {
